@@ -21,7 +21,7 @@ async def load_config(
         logging.debug(f"Loading config from {config_path}")
 
         # Read the configuration file
-        with open(config_path, "r") as config_file:
+        with open(config_path, "r", encoding="utf-8") as config_file:
             config = json.load(config_file)
 
         # Retrieve the server configuration
